@@ -1,6 +1,7 @@
 import Jp.Tie.ForLen
 import Jp.Tie.ForLenIncl
 import Jp.Tie.ForLenUnchecked
+import Jp.Tie.IndexFromStr
 import Jp.Props.C16
 /-
   Jp.Tie.TransportIndex — property theorems restated about the definitions regenerated from the current Rust source
@@ -26,5 +27,22 @@ theorem gen_for_len_incl_exact (i : Index) (n : Nat) :
 theorem gen_for_len_unchecked_exact (i : Index) (n : Nat) :
     Gen.Index.for_len_unchecked i n = match i with | .num k => k | .next => n := by
   rw [for_len_unchecked_eq]; exact C16.forLenUnchecked_exact i n
+
+/-- C16: the extracted `Index::from_str` is the declarative index grammar, error classification included -/
+theorem gen_from_str_eq_spec (s : Bytes) : Gen.Index.from_str s = indexSpec s := by
+  rw [index_from_str_eq]; exact C16.fromStr_eq_spec s
+
+theorem gen_from_str_ok_iff (s : Bytes) : (∃ i, Gen.Index.from_str s = .ok i) ↔ validIndexStr s = true := by
+  simp only [index_from_str_eq]; exact C16.fromStr_ok_iff s
+
+theorem gen_from_str_no_panic (s : Bytes) (m : String) : Gen.Index.from_str s ≠ .panic m := by
+  rw [index_from_str_eq]; exact C16.fromStr_no_panic s m
+
+/-- `Display` gives the parsed string back -/
+theorem gen_display_from_str (s : Bytes) (i : Index) (h : Gen.Index.from_str s = .ok i) : i.display = s := by
+  rw [index_from_str_eq] at h; exact C16.display_fromStr s i h
+
+example : Gen.Index.from_str [48, 49] = .err .leadingZeros := by decide
+example : Gen.Index.from_str [49, 50] = .ok (.num 12) := by decide
 
 end Jp.Tie
